@@ -527,6 +527,7 @@ func TestRoundTripSystems(t *testing.T) {
 	g := genCase(allCurves, []string{""})
 	rec.Check(t, "roundtrip", ev.N(160, 5000), func(rt *rapid.T) {
 		c := g.Draw(rt, "case")
+		rec.Begin("roundtrip", c)
 		rec.Report(rt, "roundtrip", c, run(c))
 	})
 }
@@ -541,6 +542,7 @@ func TestRoundTripKeys(t *testing.T) {
 	g := genCase(curves, []string{"groth16", "plonk"})
 	rec.Check(t, "roundtrip", ev.N(50, 3000), func(rt *rapid.T) {
 		c := g.Draw(rt, "case")
+		rec.Begin("roundtrip", c)
 		rec.Report(rt, "roundtrip", c, run(c))
 	})
 }
